@@ -553,6 +553,7 @@ func Spec() *core.Spec {
 			}},
 			{Name: "bin-extent", N: nOf(1000, 20000), Run: func(c *core.Ctx, r *core.Rand, i int) { extentCase(c, r, i) }},
 			{Name: "nested-extent", N: nOf(3000, 90000), Run: nestedExtentCase},
+			{Name: "cold-concurrent-decode", Isolated: true, N: nOf(15, 300), Run: coldConcurrentDecode, Timeout: 60 * time.Second},
 			{Name: "json-mut", N: nOf(5000, 100000), Run: func(c *core.Ctx, r *core.Rand, i int) {
 				Generators["json-mut"](r, i, func(enc string, t *Target, data []byte, class string) { Probe(c, "C02", enc, t, data, class) }, c.Distinct)
 			}},
